@@ -100,6 +100,13 @@ def handleTrace : List String → String
 
 def handle : List String → String
   | "trace" :: rest => handleTrace rest
+  | ["prestart", dir, n, mode] =>
+    match n.toNat? with
+    | some n =>
+      if (dir == "in" || dir == "out") && n ≤ 50 && (mode == "fail" || mode == "ok") then
+        Pipe.prestartAnswer n (mode == "fail")
+      else "bad-op"
+    | none => "bad-op"
   | ["leakhunt", n, seed] =>
     -- `all_terminate`: after the disconnect request every process of the model finishes
     match n.toNat?, seed.toNat? with
